@@ -6,6 +6,7 @@ import (
 	"math/big"
 	"math/bits"
 	"testing"
+	"verif/cs"
 
 	"verif/corp"
 	"verif/eng"
@@ -54,6 +55,59 @@ func c14LzRun(a c14Lz) caseResult {
 		return caseResult{Viol: fmt.Sprintf("leadingzeros/%s", eng.Mode(a.Mode)), Desc: fmt.Sprintf("difficulty %d, response %s (%d leading zeros as a 64-bit value): circuit %v, expected accept=%v", a.Bits, resp, 64-resp.BitLen(), res.Outcome, want)}
 	}
 	return caseResult{Info: map[string]any{"difficulty": a.Bits, "response_bits": resp.BitLen(), "outcome": res.Outcome.String()}}
+}
+
+// The proof-of-work check compiled with gnark's builders under the commit range checker, in
+// circuits of different sizes: the limb width gnark picks for the checker depends on the builder
+// (R1CS / SCS cost model) and on how many checks the whole circuit collects.  The chip refuses
+// circuits where its own estimate is not 16 bits; whatever compiles must enforce the exact bound.
+type c14Pop struct {
+	Backend  string `json:"backend"` // r1cs | scs
+	Bits     uint64 `json:"pow_bits"`
+	PadN     int    `json:"goldilocks_range_checks"`
+	Response string `json:"response"`
+}
+
+type c14PopSys struct {
+	sys *cs.System
+	err error
+}
+
+var c14PopSystems = map[string]c14PopSys{}
+
+func c14PopRun(a c14Pop) caseResult {
+	key := fmt.Sprintf("%s/%d/%d", a.Backend, a.Bits, a.PadN)
+	ps, ok := c14PopSystems[key]
+	if !ok {
+		kind := cs.R1CS
+		if a.Backend == "scs" {
+			kind = cs.SCS
+		}
+		fn := func(api frontend.API, v []frontend.Variable) []frontend.Variable {
+			cd := types.CommonCircuitData{}
+			fri.NewChip(api, &cd, &cd.FriParams).VerifLeadingZeros(glv(v[0]), types.FriConfig{ProofOfWorkBits: a.Bits})
+			c := gl.New(api)
+			for i := 0; i < a.PadN; i++ {
+				c.RangeCheck(glv(v[1]))
+			}
+			return nil
+		}
+		ps.sys, ps.err = cs.Compile(kind, cs.MechCommit, 2, 0, fn)
+		if len(c14PopSystems) > 4 {
+			c14PopSystems = map[string]c14PopSys{}
+		}
+		c14PopSystems[key] = ps
+	}
+	if ps.err != nil {
+		return caseResult{Trivial: true, Info: map[string]any{"compile": "refused", "why": truncate(ps.err.Error(), 80)}}
+	}
+	resp := bs(a.Response)
+	want := resp.BitLen() <= int(64-a.Bits)
+	serr := ps.sys.Solve([]*big.Int{resp, big.NewInt(0)}, nil)
+	if (serr == nil) != want {
+		return caseResult{Viol: "leadingzeros/compiled-" + a.Backend, Desc: fmt.Sprintf("proof-of-work check (difficulty %d) compiled to %s with the commit range checker in a circuit with %d further Goldilocks range checks: response %s (%d leading zeros) solved=%v, expected accept=%v", a.Bits, a.Backend, a.PadN, resp, 64-resp.BitLen(), serr == nil, want)}
+	}
+	return caseResult{Info: map[string]any{"compile": "ok", "solved": serr == nil}}
 }
 
 // whole VerifyFriProof on a real one-round prefix with only the PoW response replaced
@@ -148,11 +202,12 @@ func TestC14(t *testing.T) {
 	s := newSuite("C14")
 	r := s.r
 	defer r.Flush()
-	r.Rule("(a) assertLeadingZeros through its export hook: response in {2^(64-b)-1, 2^(64-b), 2^(64-b)+1, p-1, 0, random of every bit length} x difficulty b in 1..63 (native, plain, forced-bits flavours) and b in {16,32,48} under the padded commit flavour; accept <=> response < 2^(64-b).  (b) exported VerifyFriProof on one-round prefixes of real proofs with all challenges supplied by the reference and only the PoW response replaced.  (c) PoW witness substituted into real transcripts: the response is recomputed in circuit (GetChallenges) and checked at a drawn difficulty; witnesses are drawn at random and ground natively until the reference response has the required zeros, so both verdicts occur; accept <=> reference response of the supplied witness has >= b leading zeros.  Non-trivial = every case; distinct = (response|witness, difficulty, flavour).")
+	r.Rule("(a) assertLeadingZeros through its export hook: response in {2^(64-b)-1, 2^(64-b), 2^(64-b)+1, p-1, 0, random of every bit length} x difficulty b in 1..63 (native, plain, forced-bits flavours) and b in {16,32,48} under the padded commit flavour; accept <=> response < 2^(64-b); the same check compiled with gnark's R1CS and SCS builders under the commit range checker inside circuits with 0..36000 further Goldilocks range checks (circuits the chip refuses are trivial cases; circuits that compile must be exact at 2^(64-b)-1, 2^(64-b+j), 2^(64-b+j)+1).  (b) exported VerifyFriProof on one-round prefixes of real proofs with all challenges supplied by the reference and only the PoW response replaced.  (c) PoW witness substituted into real transcripts: the response is recomputed in circuit (GetChallenges) and checked at a drawn difficulty; witnesses are drawn at random and ground natively until the reference response has the required zeros, so both verdicts occur; accept <=> reference response of the supplied witness has >= b leading zeros.  Non-trivial = every case; distinct = (response|witness, difficulty, flavour).")
 	r.Assume("reference transcript (C11)")
 	s.on("lz", func(b json.RawMessage) caseResult { return c14LzRun(unmarshal[c14Lz](b)) })
 	s.on("fri", func(b json.RawMessage) caseResult { return c14FriRun(unmarshal[c14Fri](b)) })
 	s.on("wit", func(b json.RawMessage) caseResult { return c14WitRun(unmarshal[c14Wit](b)) })
+	s.on("pop", func(b json.RawMessage) caseResult { return c14PopRun(unmarshal[c14Pop](b)) })
 	if s.replay(t) {
 		return
 	}
@@ -194,6 +249,31 @@ func TestC14(t *testing.T) {
 			class += "+forced"
 		}
 		s.exec(rt, "lz", a, class)
+	})
+	rapidCheck(t, "pop", tierN(40, 1200), func(rt *rapid.T) {
+		a := c14Pop{Backend: rapid.SampledFrom([]string{"r1cs", "scs", "scs"}).Draw(rt, "backend"), Bits: uint64(rapid.SampledFrom([]int{16, 32, 48}).Draw(rt, "b"))}
+		switch rapid.IntRange(0, 9).Draw(rt, "size") {
+		case 0, 1:
+			a.PadN = rapid.IntRange(0, 12).Draw(rt, "pad")
+		case 2, 3, 4, 5:
+			a.PadN = rapid.IntRange(13, 2000).Draw(rt, "pad")
+		case 6, 7:
+			a.PadN = rapid.IntRange(2001, 20000).Draw(rt, "pad")
+		default:
+			a.PadN = rapid.IntRange(31800, 36000).Draw(rt, "pad")
+		}
+		lim := pow2(uint(64 - a.Bits))
+		shift := uint(rapid.IntRange(0, 9).Draw(rt, "shift"))
+		for _, resp := range []*big.Int{new(big.Int).Sub(lim, big.NewInt(1)), new(big.Int).Lsh(lim, shift), new(big.Int).Add(new(big.Int).Lsh(lim, shift), big.NewInt(1))} {
+			if resp.Cmp(bigP) >= 0 {
+				continue
+			}
+			a.Response = resp.String()
+			res := s.exec(rt, "pop", a, "leadingzeros/compiled-commit/"+a.Backend)
+			if res.Trivial {
+				break // circuit refused by the chip: nothing to solve
+			}
+		}
 	})
 	rapidCheck(t, "fri", tierN(40, 1500), func(rt *rapid.T) {
 		b := rapid.SampledFrom(corp.Names).Draw(rt, "base")
